@@ -71,6 +71,12 @@ CHECKS = {
  "C20": dict(level="model_checking", design_ref="DESIGN.md 6 (C20)",
    text="Finite and exhaustive in the thorough tier: Names.tla holds the documented tag and subsystem names; NamesGen.tla enumerates candidate strings (every name in 4 casings, all strings of length <= 3 over a class alphabet); the harness parses each and compares EVERY pair of values (named, parsed, catch-all) with ==, cmp, hash, HashMap / BTreeMap / HashSet; TLC checks each record against equality / order of protocol names and the parse rules.",
    technique="TLC evaluation of the TLA+ name tables and parse rules on real Tag / Subsystem behaviour (exhaustive pairs)", note="Trusted base: the name tables copied from the MPD documentation into spec/Names.tla."),
+ "C17": dict(level="model_checking", design_ref="DESIGN.md 6 (C17)",
+   text="AlbumArt.tla (Client::album_art as coded composed with the server's picture rules) is checked exhaustively for every picture size, chunk limit, source combination, MIME presence and scripted error within bounds (invariants + termination); seeded sessions with concrete sizes {0, 1, K-1, K, K+1, 3K+1, 4095, 4096, 4097, 20000}, payloads full of protocol look-alikes, concurrent notifications and a second caller run through the real client and loop; TLC checks the request sequence (offset = bytes received so far, fallback exactly on empty / ACK 5), length, source identity, MIME and error propagation on the recorded trace.",
+   technique="TLA+ model checking (TLC) of AlbumArt.tla + TLC trace validation of real-client executions", note=SESSION_NOTE + " Byte comparison of the reassembled picture with the original is the one projection computed in the Rust harness (equality flag + length); chunk digests are recomputed by TLC."),
+ "C18": dict(level="model_checking", design_ref="DESIGN.md 6 (C18)",
+   text="Handshake.tla (do_connect as coded) is checked exhaustively against World.tla's C18 monitors: greeting kinds x segmentations x password x verdicts x close at every point. Against the real code: Client::connect / connect_with_password / connect_with_password_opt over the mock transport with greeting variants (valid versions of several shapes, wrong prefix, empty version, invalid UTF-8, overlong, cut) and scripted verdicts, plus protocol-level Connection::connect / AsyncConnection::connect on greeting strings and their mutations under segmentation; judged by TLC (SessionTrace.tla, WireTrace.tla with Bytes.tla's GreetingRef).",
+   technique="TLA+ model checking (TLC) of Handshake.tla + TLC trace validation of real connect executions", note=SESSION_NOTE),
 }
 
 def main():
